@@ -1,12 +1,23 @@
 (* C10 — the tie to the source: the theorems in Properties.v are about
    [cfg_fixed]; this file checks that the tree being verified IS that code
-   (the translator gen_c10 read the three repairs and the channel capacity
-   from h2/h2.go and h2/relay.go).  It stops compiling when the source is
-   the unrepaired (or a partially repaired) relay. *)
+   (the translator gen_c10 read the three repairs, the channel capacities
+   and the shapes it relies on from h2/h2.go and h2/relay.go).  It stops
+   compiling when the source is the unrepaired (or a partially repaired or
+   otherwise reshaped) relay. *)
 From Martian.C10 Require Import Gen_H2Const Model.
 
 Lemma source_is_the_repaired_relay : cfg_src = cfg_fixed.
 Proof. reflexivity. Qed.
 
 Lemma source_channel_capacity_positive : Nat.ltb 0 output_channel_size = true.
+Proof. reflexivity. Qed.
+
+(* readerDone unbuffered (the reader waits until the writer has gone), writerErr and
+   frameReady buffered with one slot (neither the writer nor an abandoned ReadFrame
+   goroutine ever waits for the reader) *)
+Lemma source_relayFrames_channel_capacities :
+  (reader_done_capacity, writer_err_capacity, frame_ready_capacity) = (0, 1, 1).
+Proof. reflexivity. Qed.
+
+Lemma source_shape_recognised : src_shape_ok = true.
 Proof. reflexivity. Qed.
